@@ -3,7 +3,7 @@
 (* <= MapDepth map setter calls, over small pools with duplicate / empty /  *)
 (* absolute / URL strings and roots with and without trailing '/'.          *)
 EXTENDS Builder, Json
-CONSTANTS Depth, MapDepth
+CONSTANTS Depth, MapDepth, Narrow
 A == <<97>>                       \* "a"
 ABS == <<47, 120>>                \* "/x"
 URL == <<104, 116, 116, 112, 58, 47, 47, 104>>   \* "http://h"
@@ -14,6 +14,17 @@ P0 == <<0, 0, 0, 0, 0>>
 P1 == <<0, 4, 1, 2, 0>>
 Z == [op |-> "", s |-> <<>>, n |-> "", pos |-> P0, src |-> <<>>, name |-> <<>>, sid |-> -1, nid |-> -1,
       c |-> <<>>, id |-> 0, r |-> <<>>, f |-> <<>>, d |-> <<>>]
+BuilderOpsNarrow(b) ==
+       {[Z EXCEPT !.op = "add_source", !.s = s] : s \in {A, ABS}}
+  \cup {[Z EXCEPT !.op = "add", !.pos = P1, !.src = sr, !.name = nm] : sr \in {<<>>, <<A>>}, nm \in {<<>>, <<"n">>}}
+  \cup {[Z EXCEPT !.op = "set_source_contents", !.id = i, !.c = <<"text">>] : i \in 0..(Len(b.srcs) - 1)}
+  \cup {[Z EXCEPT !.op = "add_to_ignore_list", !.id = i] : i \in 0..(Len(b.srcs) - 1)}
+  \cup {[Z EXCEPT !.op = "set_source_root", !.r = r] : r \in { << <<114, 47>> >>, << <<114, 47, 47>> >> }}
+MapOpsNarrow(b) ==
+       {[Z EXCEPT !.op = "m_set_source_root", !.r = r] : r \in { <<>>, << <<>> >>, << <<114>> >>, << <<114, 47, 47>> >> }}
+  \cup {[Z EXCEPT !.op = "m_set_source", !.id = i, !.s = s] : i \in 0..(Len(b.srcs) - 1), s \in {A, ABS}}
+  \cup {[Z EXCEPT !.op = "m_set_source_contents", !.id = i, !.c = <<"t2">>] : i \in 0..(Len(b.srcs) - 1)}
+  \cup {[Z EXCEPT !.op = "m_saveload"]}
 BuilderOps(b) ==
        {[Z EXCEPT !.op = "add_source", !.s = s] : s \in SrcPool}
   \cup {[Z EXCEPT !.op = "add_name", !.n = n] : n \in {"n", ""}}
@@ -34,14 +45,14 @@ VARIABLES b, hist, nmap, lastret
 vars == <<b, hist, nmap, lastret>>
 Init == b = BInit /\ hist = <<>> /\ nmap = 0 /\ lastret = 0
 BuilderCall == /\ b.mode = "builder" /\ Len(hist) < Depth
-               /\ \E o \in BuilderOps(b) : LET r == BApply(b, o) IN
+               /\ \E o \in (IF Narrow THEN BuilderOpsNarrow(b) ELSE BuilderOps(b)) : LET r == BApply(b, o) IN
                      b' = r.st /\ hist' = Append(hist, o) /\ lastret' = r.ret
                /\ UNCHANGED nmap
 Finish == /\ b.mode = "builder"
           /\ b' = BApply(b, [Z EXCEPT !.op = "into_sourcemap"]).st
           /\ hist' = Append(hist, [Z EXCEPT !.op = "into_sourcemap"]) /\ UNCHANGED <<nmap, lastret>>
 MapCall == /\ b.mode = "map" /\ nmap < MapDepth
-           /\ \E o \in MapOps(b) : b' = BApply(b, o).st /\ hist' = Append(hist, o)
+           /\ \E o \in (IF Narrow THEN MapOpsNarrow(b) ELSE MapOps(b)) : b' = BApply(b, o).st /\ hist' = Append(hist, o)
            /\ nmap' = nmap + 1 /\ UNCHANGED lastret
 Next == BuilderCall \/ Finish \/ MapCall
 Spec == Init /\ [][Next]_vars
